@@ -64,7 +64,15 @@
      cnt exc n            the number of entries of fs_exc that carry the address n
      occ outs n / indeg W n   how often n occurs among the outputs / as a precedent
    The loop is the one REPAIRED by bbbc9be of /repo: the except branch marks the cell
-   verified and pushes its precedents. *)
+   verified and pushes its precedents.
+   LAST THREE SECTIONS (Proofs/C12Once.v, C12Tol.v, C12TolWeak.v): a cell is reported
+   at most once (no hypothesis); the theorems about Model/Validate.v for EVERY
+   tolerance, with [tol_pos] and the scalar condition replaced by "each formula cell's
+   from-scratch value is close_enough to itself" (text results: any tolerance; numbers:
+   exactly the absent or positive ones, C12_refl_tolerance), also under the weak
+   non-blank condition; and which entries do not depend on the order, repetitions and
+   choice of the outputs (good W sem n: stored n = from-scratch value of n; the others
+   do depend on it: coq/Refuted/C12_order.v). *)
 From Coq Require Import List QArith.
 From PV Require Import Lib.Py Model.Graph Model.Validate.
 From PV Require Import Proofs.C01Base Proofs.C01 Proofs.C12Base Proofs.C12.
